@@ -404,17 +404,21 @@ func resolveUnionBatch(ctx context.Context, sources []interface{}, typ *Union, s
 	var workUnits []*WorkUnit
 	for srcType, sources := range sourcesByType {
 		gqlType := typ.Types[srcType]
+		// Resolve every member type once, with all the fragments that apply to it:
+		// their selections are merged (and their directives evaluated) by Flatten, and
+		// a member no fragment applies to is still an (empty) object, not null.
+		applicable := &SelectionSet{}
 		for _, fragment := range selectionSet.Fragments {
 			if fragment.On != srcType {
 				continue
 			}
-			units, err := resolveObjectBatch(ctx, sources, gqlType, fragment.SelectionSet, destinationsByType[srcType])
-			if err != nil {
-				return nil, err
-			}
-			workUnits = append(workUnits, units...)
+			applicable.Fragments = append(applicable.Fragments, fragment)
 		}
-
+		units, err := resolveObjectBatch(ctx, sources, gqlType, applicable, destinationsByType[srcType])
+		if err != nil {
+			return nil, err
+		}
+		workUnits = append(workUnits, units...)
 	}
 	return workUnits, nil
 }
